@@ -52,6 +52,13 @@ func NewGitFS(gitDir string, repo *git.Repository, tree *object.Tree) *FS {
 // Compare takes a path to a git repository and returns errors between HEAD and HEAD~
 // for any incompatible Thrift changes between the two shas.
 func Compare(path string) (compare.Pass, error) {
+	// Included files are looked up below this path: it has to be absolute,
+	// or an include of a file in a repository given by a relative path is
+	// resolved against that path twice.
+	path, err := filepath.Abs(path)
+	if err != nil {
+		return compare.Pass{}, err
+	}
 	pass := compare.Pass{
 		GitDir: path,
 	}
